@@ -106,8 +106,10 @@ theorem C18_head_refines_partial (H : Hashes) (dl : Nat) {s : State} (hi : Inv s
     abs (step H dl s (.headObject b k)).1 = (StoreSpec.step H (abs s) (.headObject b k)).1 ∧
     Inv (step H dl s (.headObject b k)).1 := head_refines H dl hi hg
 
-/-- delete_object: deleted objects are gone. Partial — excluded: deleting a key that does not exist
-    (fs:delete-missing-key-error), a missing bucket -/
+/-- delete_object: deleted objects are gone; deleting a key that does not exist succeeds and changes nothing, a missing
+    bucket is `NoSuchBucket` (fe75a0e; before: fs:delete-missing-key-error and the delete_object part of
+    fs:missing-bucket-reported-as-missing-key). Partial — excluded only: a directory left behind at the path
+    (fs:leftover-directory), non-canonical keys -/
 theorem C18_delete_refines_partial (H : Hashes) (dl : Nat) {s : State} (hi : Inv s) {b k : Bytes} (hg : DeleteOk s b k) :
     (step H dl s (.deleteObject b k)).2 = (StoreSpec.step H (abs s) (.deleteObject b k)).2 ∧
     abs (step H dl s (.deleteObject b k)).1 = (StoreSpec.step H (abs s) (.deleteObject b k)).1 ∧
@@ -271,7 +273,7 @@ def bob : Who := some [66]
 
 /-- a realistic history inside `Good`: bucket, writes with and without metadata (also over an object that had some),
     whole / ranged / suffix reads (suffix longer than the object, suffix of an empty object), a copy onto itself, head
-    (of an object and of a key that does not exist), prefix listing with marker, copy, delete, a multipart upload driven by its owner and refused to another identity,
+    (of an object and of a key that does not exist), prefix listing with marker, copy, delete (also of the key just deleted), a multipart upload driven by its owner and refused to another identity,
     delete_bucket while the bucket holds objects (refused) and after they are deleted (the directory `d` is left behind) -/
 def demo : List Op := [
   .createBucket bka,
@@ -292,6 +294,7 @@ def demo : List Op := [
   .listObjectsV2 bka (some [100, 47]) none (some kA) none,
   .copyObject bka kDE bka kDF,
   .listObjects bka none none none (some 1000),
+  .deleteObject bka kA,
   .deleteObject bka kA,
   .createMultipartUpload alice bka kX (some [([116], [117])]),
   .uploadPart bob bka kX (some 1) 1 [7],
@@ -322,11 +325,14 @@ example : CopyOk (run H0 4096 {} (demo.take 11)).1 bka kDE bka kDF := by decide
 /-- head_object of a key that does not exist in an existing bucket, and of a key in a bucket that does not exist -/
 example : HeadOk (run H0 4096 {} (demo.take 3)).1 bka kX := by decide
 example : HeadOk (run H0 4096 {} (demo.take 3)).1 [98, 107, 98] kX := by decide
+/-- delete_object of a key that does not exist, in an existing bucket and in a bucket that does not exist -/
+example : DeleteOk (run H0 4096 {} (demo.take 3)).1 bka kX := by decide
+example : DeleteOk (run H0 4096 {} (demo.take 3)).1 [98, 107, 98] kX := by decide
 /-- delete_bucket of a bucket that holds objects is inside `Good` (any admissible name is), and is refused -/
 example : Good (run H0 4096 {} (demo.take 3)).1 (.deleteBucket bka) ∧
     (step H0 4096 (run H0 4096 {} (demo.take 3)).1 (.deleteBucket bka)).2 = .err .BucketNotEmpty := by decide
 /-- a ranged part copy `bytes=1-3` from an existing object into the owner's upload -/
-example : UploadPartCopyOk (run H0 4096 {} (demo.take 22)).1 bka kX (some 1) 2 bka kDE
+example : UploadPartCopyOk (run H0 4096 {} (demo.take 23)).1 bka kX (some 1) 2 bka kDE
     (some [98, 121, 116, 101, 115, 61, 49, 45, 51]) := by decide
 /-- … and they do exclude the recorded deviations: a copy onto an object that has a metadata file from a source without -/
 example : ¬ CopyOk (run H0 4096 {} (demo.take 5)).1 bka kA bka kDE := by decide
